@@ -211,6 +211,8 @@ def run_case(case, ctx):
         for r in prev['rows']:
             e = case['expiry_scalar'] if case.get('expiry_scalar') is not None else r['exp']
             prev_by_key[tuple(r[c] for c in prev['on'])] = (r['v'], e)
+    if case.get('output_is_input') is not None:
+        kw['output_is_input'] = case['output_is_input']      # whether f is shown its own previous output: no bearing on which rows keep their value
     p = perdictable(f, **kw)
     if case.get('defaults') is not None:
         # an earlier call on the same lifted function that leaves a defaulted input to f's own default must not change later calls
@@ -219,6 +221,9 @@ def run_case(case, ctx):
             ctx.call(p, **{q: v for q, v in call_kw.items() if q not in omit})
             ctx.cls('warmup_call_omitting_defaulted_input')
     del log[:]
+    if mrows is None and case.get('scalar_cache'):
+        call_kw['data'] = case['scalar_cache'][0]
+        call_kw['expiry'] = {'past': PAST, 'future': FUTURE, 'none': None}[case['scalar_cache'][1]]
     st, res = ctx.call(p, **call_kw)
     calls = list(log)
     if mrows is None:
@@ -345,6 +350,10 @@ def gen_case(rng):
             case['fdefaults'] = {}
             for q in case['params']:
                 inputs.setdefault(q, 'sc' + q)
+    if rng.random() < 0.3 and 'data' not in case['params']:
+        case['output_is_input'] = rng.choice([False, 'something_else', []])
+    if not tables and 'data' not in case['params'] and rng.random() < 0.5:
+        case['scalar_cache'] = [rng.choice([99, None, 'old']), rng.choice(['past', 'past', 'future', 'none'])]
     if tables and rng.random() < 0.6:
         full = [s for s in inputs.values() if isinstance(s, dict) and 'rows' in s and s['on'] == on]
         pool = universe
